@@ -66,6 +66,7 @@ class Ctx:
         self.cfg_nodes = 0
         self.cfg_edges = 0
         self.extra: Dict[str, object] = {}
+        self.errors: List[str] = []   # analysis errors swallowed by ctx.section()
 
     # ---- anchors ---------------------------------------------------------------------
     def mod(self, rel):
@@ -89,6 +90,24 @@ class Ctx:
             self.cfg_nodes += n
             self.cfg_edges += e
         return g
+
+    def section(self, name: str):
+        """``with ctx.section("put"):`` - an AnalysisError raised inside is recorded and execution
+        continues after the block, so an unreadable shape in one function never masks the verdicts
+        of the other rule groups.  Recorded errors make the run exit 2 only if no violation was found."""
+        ctx = self
+
+        class _Section:
+            def __enter__(self_inner):
+                return self_inner
+
+            def __exit__(self_inner, et, ev, tb):
+                if et is not None and issubclass(et, AnalysisError):
+                    ctx.errors.append(f"[{name}] {ev}")
+                    return True
+                return False
+
+        return _Section()
 
     # ---- obligations -----------------------------------------------------------------
     @staticmethod
